@@ -1048,6 +1048,8 @@ def c16(ctx):
                       "five-minute fallback, retry after the leader's context ended, give-up at the caller's own deadline. TLC checks LookupGate, "
                       "Bounded and NotCollateral over callers x deadlines x cancellations x services that answer, fail or hang (explicit clock); "
                       "random histories of the real store under synctest (hanging service, clock advanced up to 20 virtual minutes) are validated")
+    # "thereafter polled and cached like any other": lookups of different names overlapping their cache writes (real goroutines, slow cache)
+    cov["concurrent_flush_runs"] = cache_order(ctx, 150 if ctx.thorough else 20)
     return "model_checking", cov, ["virtual time; a hanging service is a request the driver never releases"]
 
 
@@ -1298,6 +1300,24 @@ def store_scripts(ctx, fam, n, depth, consts=None, race=False):
 
 
 # ----------------------------------------------------------------------------- C13
+def cache_order(ctx, n):
+    """Real concurrency (race detector): lookups of different names and installing polls overlapping their flushes on a slow cache; at
+    quiescence the last document written must be the one made from the last state (every looked-up secret is cached like any other)."""
+    results, wd4, code = ctx.godrive("store", "^TestCacheOrder$", env={"VERIF_TRACES": n}, name="cacheorder", race=True, allow_fail=True, timeout=1700)
+    blocks, real = race_blocks(os.path.join(wd4, "driver.out"))
+    if blocks and not real:
+        raise ToolTrouble("race inside the harness itself (no verdict):\n" + blocks[0][:2500])
+    if real:
+        i = real[0].index("WARNING: DATA RACE")
+        ctx.violation("data race (cache flush)", "the race detector reports a data race among lookups, polls and cache flushes:\n" + real[0][i:i + 1800],
+                      {"kind": "race", "report": real[0][i:i + 6000]})
+    elif "store-cacheorder" not in results:
+        raise ToolTrouble("cache-order driver died:\n" + open(os.path.join(wd4, "driver.out"), errors="replace").read()[-3000:])
+    if "store-cacheorder" in results:
+        return ctx.take(results, "store-cacheorder")["counters"].get("runs", 0)
+    return 0
+
+
 @check("C13")
 def c13(ctx):
     th = ctx.thorough
@@ -1322,21 +1342,7 @@ def c13(ctx):
                             {"dict.ndjson": os.path.join(wd, "dict.ndjson")}, describe=describe_store_event)
     results, wd2, _ = ctx.godrive("store", "^TestCacheGray$", env={"VERIF_TRACES": 600 if th else 120}, name="gray")
     rg = ctx.take(results, "store-gray")
-    # real concurrency (race detector): lookups and installing polls overlapping their flushes on a slow cache; at quiescence
-    # CacheVersions must hold (the last document written is the one made from the last state)
-    results, wd4, code = ctx.godrive("store", "^TestCacheOrder$", env={"VERIF_TRACES": 200 if th else 25}, name="cacheorder", race=True, allow_fail=True, timeout=1700)
-    blocks, real = race_blocks(os.path.join(wd4, "driver.out"))
-    if blocks and not real:
-        raise ToolTrouble("race inside the harness itself (no verdict):\n" + blocks[0][:2500])
-    if real:
-        i = real[0].index("WARNING: DATA RACE")
-        ctx.violation("data race (cache flush)", "the race detector reports a data race among lookups, polls and cache flushes:\n" + real[0][i:i + 1800],
-                      {"kind": "race", "report": real[0][i:i + 6000]})
-    elif "store-cacheorder" not in results:
-        raise ToolTrouble("cache-order driver died:\n" + open(os.path.join(wd4, "driver.out"), errors="replace").read()[-3000:])
-    if "store-cacheorder" in results:
-        ro = ctx.take(results, "store-cacheorder")
-        cov["concurrent_flush_runs"] = ro["counters"].get("runs", 0)
+    cov["concurrent_flush_runs"] = cache_order(ctx, 200 if th else 25)
     # the file cache itself: atomic replacement, 0600, old-or-new under kill / injected errors at every system call
     model = atomicfile_model(ctx)
     r, ok, nruns = atomicfile_conformance(ctx, ["cachewrite"])
